@@ -13,7 +13,9 @@ for the quick operators) x operand pairs {(B,B) (B,S) (S,B) (S,S) (B,int) (int,B
 {a op b, a op= b, pow(a, b, m) (only without __rpow__)}.
 Rich comparisons: all 64 subsets of the six methods with value bodies + every subset with a NotImplemented __eq__ or
 __lt__ (thorough: EVERY assignment of {absent, value, NotImplemented} with <= 2 NotImplemented bodies) x subclass
-{inherits, overrides __eq__ (thorough also: overrides __lt__, overrides __gt__ with NotImplemented)} x the same operand pairs x six operators + hash();  total_ordering on: every such assignment that has
+{inherits, overrides __eq__ (thorough also: overrides __lt__, overrides __gt__ with NotImplemented)}; plus the
+complete product base subset {{eq},{eq,lt},{lt},{ne},{eq,ne},{}} (value / NotImplemented __eq__) x subclass-own subset
+{{},{lt},{eq},{ne},{le,gt}} (inherited methods looked up along the cdef base chain, `!=` from an inherited __eq__) x the same operand pairs x six operators + hash();  total_ordering on: every such assignment that has
 an ordering method and __eq__, bodies computing real comparisons of an instance value, instances with values (1,1)
 (1,2) (2,1), vs functools.total_ordering.
 Oracle: CPython executing the toggled class text: result (type+repr, or exception type) and the ordered call log.
@@ -50,6 +52,10 @@ CMPS = ['lt', 'le', 'eq', 'ne', 'gt', 'ge']
 VARIANTS3 = [''.join(v) for v in itertools.product('-VN', repeat=3)]
 SUBS_Q = ['---', '-V-', '-N-', 'V--', '--V', 'VVV']
 CMP_SUBS = [('pass', {}), ('eqV', {'eq': 'V'}), ('ltV', {'lt': 'V'}), ('gtN', {'gt': 'N'})]
+# base-class subsets x subclass-own subsets (value / NotImplemented bodies for __eq__)
+CROSS_BASES = [{'eq': 'V'}, {'eq': 'N'}, {'eq': 'V', 'lt': 'V'}, {'eq': 'N', 'lt': 'V'}, {'lt': 'V'}, {'ne': 'V'},
+               {'eq': 'V', 'ne': 'V'}, {'eq': 'N', 'ne': 'V'}, {}]
+CROSS_SUBS = [{}, {'lt': 'V'}, {'eq': 'V'}, {'eq': 'N'}, {'ne': 'V'}, {'le': 'V', 'gt': 'V'}]
 REACH = ['_maybe_call_slot', 'tp_richcompare', 'Py_NotImplemented']
 
 
@@ -179,6 +185,15 @@ def units(tier):
         src = cmp_class('R%d' % n, None, a, ordering=True)
         src += cmp_class('S%d_0' % n, 'R%d' % n, {}, ordering=True, root='R%d' % n)
         us.append(drive.Unit(src, toggle(src), [('ord', n, tuple(sorted(a.items())), ('pass',))]))
+        n += 1
+    # ---- rich comparisons, base subset x DIFFERENT subclass-own subset (complete product, both tiers): inherited
+    #      methods must be found along the cdef base-class chain (e.g. `!=` derived from an inherited __eq__)
+    for a in CROSS_BASES:
+        src = cmp_class('R%d' % n, None, a)
+        for j, sa in enumerate(CROSS_SUBS):
+            src += cmp_class('S%d_%d' % (n, j), 'R%d' % n, sa)
+        us.append(drive.Unit(src, toggle(src), [('cmp', n, tuple(sorted(a.items())),
+                                                tuple('own:' + ''.join(c + k for c, k in sorted(sa.items())) for sa in CROSS_SUBS))]))
         n += 1
     return us
 
@@ -339,6 +354,9 @@ def run(ctx):
     dev = int(os.environ.get('G8_DEV_STEP', '0') or 0)     # development aid only: evidence is then marked non-exhaustive
     if dev:
         us = us[::dev]
+    if os.environ.get('G8_C28_TAIL'):                       # development aid only: the last N units
+        dev = dev or 1
+        us = us[-int(os.environ['G8_C28_TAIL']):]
     per = 12
     mods = [drive.make_mod('c28_%d' % (i // per), PRELUDE, REF_PRELUDE, us[i:i + per]) for i in range(0, len(us), per)]
     ctx.log('%d class families in %d modules' % (len(us), len(mods)))
